@@ -429,7 +429,82 @@ def programmed_addresses(V, **params):
     return c06.pair(V, **params)
 
 
-FUNCS = {"programmed_addresses": programmed_addresses, "ifm_block": ifm_block, "waits": waits, "wait_step": wait_step, "rangeset": rangeset, "access": access, "dma_access": dma_access, "blockdep": blockdep, "shram_writes": shram_writes}
+def area_ranges(V, layout, width, depth, elem, hmax=4):
+    """the address ranges the BLOCKDEP overlap analysis uses for a 3-D area of a feature map (get_address_ranges_for_area, through the 4-tile
+    addressing) contain every byte of every element of that area: symbolic tile split, bases, area corners and element; heights up to 4 (thorough 6) so that the
+    per-row loop unrolls.  A missing row makes intersects() miss a read-after-write hazard and BLOCKDEP too large."""
+    import ethosu.vela.register_command_stream_util as u
+    from ethosu.vela import api as a
+    from ethosu.vela.register_command_stream_util import PointXYZ
+    from harness.c10 import _srange
+
+    H = V.int("H", 1, hmax)
+    h0, h1 = V.int("height_0", 1, hmax), V.int("height_1", 1, hmax)
+    w0 = V.int("width_0", 1, width)
+    bases = [V.int("base%d" % i, 0, 1 << 32) for i in range(4)]
+    x0, y0, c0 = V.int("x0", 0, width - 1), V.int("y0", 0, hmax - 1), V.int("c0", 0, depth - 1)
+    x1, y1, c1 = V.int("x1", 0, width + 2), V.int("y1", 0, hmax + 2), V.int("c1", 0, depth + 3)
+    y, x, c = V.int("y", 0, hmax - 1), V.int("x", 0, width - 1), V.int("c", 0, depth - 1)
+    V.assume(z3.And(L(y0) < L(H), L(x0) <= L(x1), L(y0) <= L(y1), L(c0) <= L(c1)))
+    V.assume(z3.And(L(y) < L(H), L(y) >= L(y0), L(y) <= L(y1), L(x) >= L(x0), L(x) <= L(x1), L(c) >= L(c0), L(c) <= L(c1)))
+    fm = a.NpuFeatureMap()
+    fm.data_type = a.NpuDataType.INT8 if elem == 1 else a.NpuDataType.INT16
+    fm.shape = a.NpuShape3D(H, width, depth)
+    fm.tiles = a.NpuTileBox(height_0=h0, height_1=h1, width_0=w0, addresses=bases)
+    fm.region = 1
+    fm.layout = a.NpuLayout.NHWC if layout == "NHWC" else a.NpuLayout.NHCWB16
+    with core.shims((u, {"min": core.smin, "max": core.smax, "int": core.IntShim, "range": _srange(8)})):
+        ranges = u.get_address_ranges_for_area(fm, PointXYZ(x0, y0, c0), PointXYZ(x1, y1, c1))
+    if layout == "NHWC":
+        sx, sy = depth * elem, width * depth * elem
+        off = lambda yy, xx: yy * sy + xx * sx + L(c) * elem  # noqa
+    else:
+        sy = elem * width * (-(-depth // 16) * 16)
+        sc = 16 * elem * width
+        off = lambda yy, xx: yy * sy + (L(c) / 16) * sc + xx * 16 * elem + (L(c) % 16) * elem  # noqa
+    right = L(x) >= L(w0)
+    addr = z3.If(right, z3.If(L(y) >= L(h1), L(bases[3]) + off(L(y) - L(h1), L(x) - L(w0)), L(bases[1]) + off(L(y), L(x) - L(w0))),
+                 z3.If(L(y) >= L(h0), L(bases[2]) + off(L(y) - L(h0), L(x)), L(bases[0]) + off(L(y), L(x))))
+    inside = [z3.And(L(r.address) <= addr, addr + elem <= L(r.address) + L(r.length)) for r in ranges if r is not None]
+    return [("every element of the area lies inside one of the area's address ranges", z3.Or(*inside) if inside else z3.BoolVal(False))]
+
+
+def block_coords(V, wb, hb, db):
+    """get_offset_block_coords numbers the blocks of an area the way the hardware traverses them - depth first, then width, then height - from the
+    start (offset >= 0) or from the end (offset < 0): symbolic area origin, block size and offset, enumerated block counts per axis"""
+    import ethosu.vela.register_command_stream_util as u
+    from ethosu.vela.register_command_stream_util import Rect
+    from ethosu.vela.architecture_features import Block
+    import ethosu.vela.numeric_util as nu
+
+    bw, bh, bd = V.int("block_w", 1, 64), V.int("block_h", 1, 64), V.int("block_d", 1, 64)
+    ax, ay, az = V.int("area_x", 0, 4096), V.int("area_y", 0, 4096), V.int("area_z", 0, 4096)
+    # area extent: (count-1) full blocks plus a partial one
+    pw, ph, pd = V.int("part_w", 1, 64), V.int("part_h", 1, 64), V.int("part_d", 1, 64)
+    V.assume(z3.And(L(pw) <= L(bw), L(ph) <= L(bh), L(pd) <= L(bd)))
+    sw, sh_, sd = (wb - 1) * bw + pw, (hb - 1) * bh + ph, (db - 1) * bd + pd
+    off = V.int("offset", -(wb * hb * db) - 2, wb * hb * db + 2)
+    area = Rect(ax, ay, az, ax + sw - 1, ay + sh_ - 1, az + sd - 1)
+
+    def rud(a, b):  # round_up_divide on proxies: the quotient is known by construction, checked as an assumption-free identity below
+        return (a + b - 1) // b
+
+    total = wb * hb * db
+    with core.shims((u, {"min": core.smin, "max": core.smax, "int": core.IntShim}), (nu, {"int": core.IntShim})):
+        got = u.get_offset_block_coords(area, Block(bw, bh, bd), off)
+    idx = z3.If(L(off) < 0, total + L(off), L(off))
+    if got is None:
+        return [("no block only for an index beyond the last block", idx >= total)]
+    zi = idx % db
+    xi = (idx / db) % wb
+    yi = idx / (db * wb)
+    return [("an index beyond the last block has no coordinates", idx < total),
+            ("depth coordinate: depth-first numbering", L(got.z) == L(az) + zi * L(bd)),
+            ("width coordinate: width second", L(got.x) == L(ax) + xi * L(bw)),
+            ("height coordinate: height last", L(got.y) == L(ay) + yi * L(bh))]
+
+
+FUNCS = {"area_ranges": area_ranges, "block_coords": block_coords, "programmed_addresses": programmed_addresses, "ifm_block": ifm_block, "waits": waits, "wait_step": wait_step, "rangeset": rangeset, "access": access, "dma_access": dma_access, "blockdep": blockdep, "shram_writes": shram_writes}
 
 
 def instances(tier, seed):
@@ -441,6 +516,18 @@ def instances(tier, seed):
     for kind, group in (("conv", "ifm_addr"), ("conv", "ofm_addr"), ("dma", "dma")):
         out.append(dict(key="programmed_addresses/%s/%s" % (kind, group), fn="programmed_addresses",
                         params=dict(accel="Ethos_U65_512", kind=kind, group=group, light=(kind != "dma")), weight=100))
+    for layout in ("NHWC", "NHCWB16"):
+        for width in (1, 4):
+            for depth in (16, 20):
+                for elem in (1, 2):
+                    if tier == "quick" and (elem == 2) != (depth == 20):
+                        continue
+                    out.append(dict(key="area_ranges/%s/w%d_d%d_e%d" % (layout, width, depth, elem), fn="area_ranges",
+                                    params=dict(layout=layout, width=width, depth=depth, elem=elem, hmax=4 if tier == "quick" else 6), weight=40))
+    for wb in (1, 2, 3):
+        for hb in (1, 2, 3):
+            for db in (1, 2, 3):
+                out.append(dict(key="block_coords/%dx%dx%d" % (wb, hb, db), fn="block_coords", params=dict(wb=wb, hb=hb, db=db)))
     nmax = 6 if tier == "quick" else 9
     for accel in ("Ethos_U55_128", "Ethos_U65_256"):
         for n in range(1, nmax + 1):
